@@ -453,28 +453,82 @@ def repeat_case(arg) -> dict:
     return {"n": n, "violations": viols, "outcomes": {"free-running-real-pool-runs(sampling)": n}, "nontrivial": [hash(("free", c_["id"])) for c_ in cases]}
 
 
+MOCK_OPS = {
+    "data(seed=0)": {"noise": 0.5, "seed": 0},
+    "data(seed=1)": {"noise": 0.5, "seed": 1},
+    "data(seed=0,drift=3)": {"noise": 0.5, "seed": 0, "drift": 3.0},
+    "data(seed=0,num_per_decade=3)": {"noise": 0.5, "seed": 0, "num_per_decade": 3},
+    "modify-returned-circuit": None,    # generate_mock_circuits(ident) and change every element of what it returns, in place
+}
+
+
+def _mock_apply(ident: str, op: str, np):
+    from pyimpspec import generate_mock_circuits, generate_mock_data
+
+    kw = MOCK_OPS[op]
+    if kw is None:
+        for c in generate_mock_circuits(ident):
+            for el in c.get_elements():
+                vals = el.get_values()
+                k = next(iter(vals), None)
+                if k is not None:
+                    try:
+                        el.set_values(**{k: vals[k] * 2.0})
+                    except Exception:
+                        pass
+        return None
+    d = generate_mock_data(ident, **kw)[0]
+    return dig(np.concatenate([np.asarray(d.get_frequencies(), dtype=complex), np.asarray(d.get_impedances(), dtype=complex)]))
+
+
+def mock_sequence(ident: str, ops: Sequence[str], reference: Dict[str, str], np) -> Optional[dict]:
+    for i, op in enumerate(ops):
+        got = _mock_apply(ident, op, np)
+        if got is not None and got != reference[op]:
+            return {"step": i, "op": op}
+    return None
+
+
 def mock_case(arg) -> dict:
+    """E2: every sequence of 3 operations per mock identifier; each data request must return what the same request returns as the first
+    call of a fresh process (bit-identical for the same seed and arguments, whatever was generated or modified before)."""
+    from vf.explore import in_child
+
     idents = arg
     st = setup()
     np = st["np"]
-    from pyimpspec import generate_mock_data
-
-    viols: List[dict] = []
+    viols: Dict[str, dict] = {}
     n = 0
     nontrivial = []
+    nseq = 0
     for ident in idents:
-        digs = {}
-        for seed in range(5):
-            d1 = generate_mock_data(ident, noise=0.5, seed=seed)[0]
-            d2 = generate_mock_data(ident, noise=0.5, seed=seed)[0]
-            n += 2
-            if not (np.array_equal(d1.get_impedances(), d2.get_impedances()) and np.array_equal(d1.get_frequencies(), d2.get_frequencies())):
-                viols.append({"key": "mock|same-seed-differs", "what": f"generate_mock_data({ident!r}, seed={seed}) is not bit-identical when repeated", "case": {"part": "mock", "ident": ident}})
-            digs[seed] = dig(d1.get_impedances())
-            nontrivial.append(hash((ident, seed)))
-        if len(set(digs.values())) != len(digs):
-            viols.append({"key": "mock|different-seeds-same-data", "what": f"generate_mock_data({ident!r}) returns the same noisy data for different seeds", "case": {"part": "mock", "ident": ident}})
-    return {"n": n, "violations": viols, "outcomes": {"mock:identifier-seed-pairs": n // 2}, "nontrivial": nontrivial, "states": n, "transitions": n // 2, "traces": n}
+        reference = {op: in_child(lambda op=op: _mock_apply(ident, op, np)) for op in MOCK_OPS if MOCK_OPS[op] is not None}
+        if reference["data(seed=0)"] == reference["data(seed=1)"]:
+            viols["mock|different-seeds-same-data"] = {"key": "mock|different-seeds-same-data", "count": 1, "case": {"part": "mock", "ident": ident, "ops": []},
+                                                        "what": f"generate_mock_data({ident!r}) returns the same noisy data for seeds 0 and 1"}
+        for ops in itertools.product(MOCK_OPS, repeat=3):
+            nseq += 1
+            bad = in_child(lambda ops=ops: mock_sequence(ident, ops, reference, np))   # every sequence starts from a fresh process image
+            n += sum(1 for o in ops if MOCK_OPS[o] is not None)
+            nontrivial.append(hash((ident, ops)))
+            if bad is not None:
+                # shortest failing suffix-free form: drop operations while it still fails (each candidate in a fresh fork)
+                cur = list(ops[: bad["step"] + 1])
+                changed = True
+                while changed:
+                    changed = False
+                    for i in range(len(cur) - 1):
+                        cand = cur[:i] + cur[i + 1:]
+                        if in_child(lambda cand=cand: mock_sequence(ident, cand, reference, np)) is not None:
+                            cur, changed = cand, True
+                            break
+                sig = ">".join("data" if MOCK_OPS[o] is not None and o != cur[-1] else o for o in cur)
+                key = f"mock|same-request-different-data|{sig}"
+                if key not in viols:
+                    viols[key] = {"key": key, "count": 0, "case": {"part": "mock", "ident": ident, "ops": cur},
+                                  "what": f"generate_mock_data({ident!r}, ...): after the calls {cur[:-1]} the request {cur[-1]} no longer returns the data it returns as the first call of a fresh process"}
+                viols[key]["count"] += 1
+    return {"n": n, "violations": list(viols.values()), "outcomes": {"mock:operation-sequences": nseq}, "nontrivial": nontrivial, "states": nseq, "transitions": nseq * 3, "traces": nseq}
 
 
 def _dispatch(job) -> dict:
@@ -515,7 +569,7 @@ def run(ctx) -> None:
                 "evaluate_log_F_ext (10, 20 evaluations) and the cnls test under the controlled pool (ordered imap/map: zero choice points "
                 "expected); every execution is compared with the serial result. TLC: PoolModel for (N, P) in {(3,2),(4,2),(4,3),(5,2),(5,5)}, "
                 "terminal traces compared with the enumerator and replayed on the pool and on perform_zhit. Repetition: serial call twice in one "
-                "process; 8 entry points in three fresh processes (PYTHONHASHSEED 0/12345/0); mock data for all definitions x seeds 0..4; a "
+                "process; 8 entry points in three fresh processes (PYTHONHASHSEED 0/12345/0); mock data: for every definition all sequences of 3 operations from {4 data requests (two seeds, drift, points per decade), modify the circuit returned by generate_mock_circuits in place}, each request compared bit for bit with the same request as first call of a fresh process; a "
                 "free-running pass with the real Pool at num_procs 2/4/16 (sampling).")
     ctx.assumptions = ["results travel by pickle and workers share no memory: the controlled pool reproduces exactly that", "time-outs and real OS scheduling are not modelled",
                        "BHT and TR-RBF draw unseeded random start values by design and are excluded"]
@@ -551,7 +605,19 @@ def replay(case: dict) -> list:
         r = repeat_case((case["cases"], case["mode"]))
         return r["violations"]
     if case.get("part") == "mock":
-        return mock_case([case["ident"]])["violations"]
+        from vf.explore import in_child
+
+        st = setup()
+        ident, ops = case["ident"], case.get("ops") or []
+        if not ops:
+            return mock_case([ident])["violations"]
+        reference = {op: in_child(lambda op=op: _mock_apply(ident, op, st["np"])) for op in MOCK_OPS if MOCK_OPS[op] is not None}
+        bad = in_child(lambda: mock_sequence(ident, ops, reference, st["np"]))
+        if bad is None:
+            return []
+        sig = ">".join("data" if MOCK_OPS[o] is not None and o != ops[-1] else o for o in ops)
+        return [{"key": f"mock|same-request-different-data|{sig}", "what": f"generate_mock_data({ident!r}): after {ops[:-1]} the request {ops[-1]} differs from a fresh process",
+                 "case": case}]
     if "N" in case and "entry" not in case:
         return tlc_case(case)["violations"]
     return replay_schedule(case)
